@@ -53,17 +53,21 @@ def h_fold_unfold(a: int, b: int, c: int, d: int, e: int, n: int, limit: int) ->
     return joined == out
 
 
-def h_contentline(a: int, b: int, n: int) -> bool:
+CL_NAMES = ["DESCRIPTION:", "X:", "ATTENDEE;CN=é:"]
+
+
+def h_contentline(a: int, b: int, n: int, nm: int) -> bool:
     """
     Contentline.to_ical / from_ical with the real limit: a value of n repetitions of a 1-4 octet
-    character pair after a fixed name.
+    character pair after a long, a minimal and a parameterised name (short lines made of 4-octet
+    characters exceed 75 octets well below 75 characters).
 
-    pre: 0 <= n <= 80 and pinned("n", n)
+    pre: 0 <= n <= 80 and pinned("n", n) and 0 <= nm < len(CL_NAMES) and pinned("nm", nm)
     pre: 0 <= a < 10 and 0 <= b < 10
     post: _
     """
     n = pin("n", n)
-    text = "DESCRIPTION:" + (WIDE[_c(a, 10)] + WIDE[_c(b, 10)]) * n
+    text = CL_NAMES[pin("nm", nm)] + (WIDE[_c(a, 10)] + WIDE[_c(b, 10)]) * n
     cl = Contentline(text)
     raw = cl.to_ical()
     for p in raw.split(b"\r\n"):
